@@ -231,7 +231,7 @@ DOCUMENTED = [
     "CC{[$][$]CC[$],[$|2|]C(O)C[$]; [$][H][$]}|gauss(160,35)|O",
     "[H]{[$][$]C(C[<])(C[<])(C[<2]), [>]CC[<], [>2]OCO[<2]; [>][H], [>2]O []}|gauss(200, 50)|",
     "CCOC(=O)C(C)(C){[>][<|0 0 0 1|]CC([>|0 0 1 0|])c1ccccc1, [<|0 1 0 0|]CC([>|1 0 0 0|])C(=O)OC [<]}|schulz_zimm(1000, 900)|[Br]",
-    "C{[$|1 2 3|][$]CC[$][$]}|gauss(30,1)|C",
+    "C{[$|1 2|][$]CC[$][$]}|gauss(30,1)|C",
     "{[][<]C(=O)CCCCC(=O)[<],[>]NCCCCCCN[>]; [<][H], [>]O []}|flory_schulz(1e-1)|",
     "NC{[$][$]C[$][$]}|uniform(12, 72)|COOC{[$][$]C[$][$]}|uniform(12, 72)|CO",
     "[H]{[$] [$]C(C[<])(C[<])(C[<]), [>]CC[<]; [>][H] []}|gauss(200, 50)|",
